@@ -36,11 +36,15 @@ Inductive dtype :=
 | DInt | DFloat | DStr | DBool
 | DOpt (d : dtype)
 | DEnum (n : N)                 (* an Enum class with n members *)
-| DRef                          (* Module / Generator / ExternalModule / PrimitiveCall / ExternalModuleCall valued field *)
+| DRef                          (* Module / Generator / ExternalModule / PrimitiveCall / ExternalModuleCall valued field; also a
+                                   frozenset of strings: an abstract leaf compared by identity or by ==, for which the encoder
+                                   writes a text that is a function of the VALUE (repair C09-5: a set by its sorted members) *)
 | DRec (ds : list dtype)        (* nested paramclass: dtypes of its fields *)
 | DScalar                       (* h.Scalar = Union[Prefixed, Literal] with the to_scalar conversions *)
 | DPref                         (* h.Prefixed *)
-| DDec.                         (* decimal.Decimal *)
+| DDec                          (* decimal.Decimal *)
+| DObj.                         (* a field of arbitrary type (Callable / a user class / Instance): holds objects that have
+                                   NO JSON form - functions, lambdas, objects of user types, Instances *)
 
 Inductive pval :=
 | VNone | VInt (z : Z) | VFloat (r : string) | VStr (s : string) | VBool (b : bool)
@@ -49,7 +53,9 @@ Inductive pval :=
 | VPrefW (d : Dec.dec) (q : Z)          (* levels 1, 2: Prefixed(number = d, prefix = the member of value q), as written *)
 | VDecW (d : Dec.dec)                   (* levels 1, 2: a Decimal as written *)
 | VPref (c e : Z)                       (* level 3: the prefixed numbers of value c * 10^e *)
-| VDec (c e : Z).                       (* level 3: the decimals of value c * 10^e *)
+| VDec (c e : Z)                        (* level 3: the decimals of value c * 10^e *)
+| VObj (i : N).                         (* the i-th object without a JSON form (== and hash: identity, or the user type's own
+                                           value equality: equal objects built separately are one i) *)
 
 (* ---------- decimal text of an int: str(int) ---------- *)
 Definition dec (z : Z) : string := NilEmpty.string_of_int (Z.to_int z).
@@ -63,7 +69,8 @@ Fixpoint all_chars (p : ascii -> bool) (s : string) : bool :=
 
 (* the alphabet of repr(float): digits, sign, point, exponent, "inf", "nan" *)
 Definition float_char (a : ascii) : bool := has_char a "0123456789+-.einfa".
-(* a float is carried as repr text (nan excluded: it is not equal to itself).  Negative zero compares equal to 0.0
+(* a float is carried as repr text.  NaN is excluded: it is not equal to itself, so it cannot be a cache key; the repaired
+   generator.run refuses a call holding it before anything else (repair C09-6), as `validate` does here.  Negative zero compares equal to 0.0
    but prints differently: a validated instance may hold either (float_held), the cache key is the repr of 0.0 for both
    (fzero: -0.0 == 0.0 and hash(-0.0) == hash(0.0); the repaired params.py:_named_value names both as 0.0), so that
    cache-key floats (float_ok) are never "-0.0" *)
@@ -168,6 +175,7 @@ Fixpoint valid (d : dtype) (v : pval) {struct d} : bool :=
   | DScalar, VLit _ => true
   | DPref, VPrefW _ q => Prefixed.is_prefix q
   | DDec, VDecW _ => true
+  | DObj, VObj _ => true
   | _, _ => false
   end.
 
@@ -200,6 +208,7 @@ Fixpoint typed (d : dtype) (v : pval) {struct d} : bool :=
   | DScalar, VLit _ => true
   | DPref, VPref c e => canon_ok c e
   | DDec, VDec c e => canon_ok c e
+  | DObj, VObj _ => true
   | _, _ => false
   end.
 
@@ -235,6 +244,7 @@ Fixpoint pval_eqb (a b : pval) {struct a} : bool :=
   | VDecW x, VDecW y => dec_eqb x y
   | VPref c e, VPref c' e' => (c =? c') && (e =? e')
   | VDec c e, VDec c' e' => (c =? c') && (e =? e')
+  | VObj x, VObj y => N.eqb x y
   | _, _ => false
   end.
 
@@ -357,6 +367,7 @@ Fixpoint validate (d : dtype) (v : pval) {struct d} : result pval :=
       end
   | DPref, VPrefW x q => if Prefixed.is_prefix q then Ok (VPrefW x q) else Error EBadKind
   | DDec, _ => o <- to_number false v ;; match o with Some x => Ok (VDecW x) | None => Error EBadKind end
+  | DObj, VObj i => Ok (VObj i)                     (* arbitrary types: an isinstance check, the object is kept as it is *)
   | _, _ => Error EBadKind
   end.
 
@@ -472,7 +483,10 @@ Definition unique_name (fs : list field) (vs : list pval) : result uname :=
    the class: modelled by position. ---------- *)
 Inductive jv :=
 | JNull | JInt (z : Z) | JFloat (r : string) | JStr (s : string) | JBool (b : bool)
-| JEnum (i : N) | JRef (i : N) | JObj (kvs : list (string * jv)).
+| JEnum (i : N) | JRef (i : N) | JObj (kvs : list (string * jv))
+| JNoForm (i : N).     (* NOT a JSON value: the leaf at which hdl21_naming_encoder RAISES (TypeError from pydantic's encoder,
+                          RuntimeError for an Instance) - kept as a leaf so that `encode` is total; `unique_name_f` below
+                          refuses every parameter set whose tree contains it *)
 
 (* params.py:_value_name : f"{'-' if sign else ''}{coef}e{exp}" on the normal form *)
 Definition canon_str (c e : Z) : string := dec c ++ "e" ++ dec e.
@@ -495,6 +509,7 @@ Fixpoint encode (v : pval) {struct v} : jv :=
   | VPref c e => JObj [("prefixed", JStr (canon_str c e))]
   | VDec c e => JObj [("decimal", JStr (canon_str c e))]
   | VPrefW _ _ | VDecW _ => JNull          (* not cache-key values *)
+  | VObj i => JNoForm i
   end.
 
 Fixpoint zip_keys (ks : list string) (l : list jv) : list (string * jv) :=
@@ -513,3 +528,18 @@ Definition encode_pref_pinned (d : Dec.dec) (q : Z) : option jv :=
   if 0 <=? Dec.dexp d
   then Some (JObj [("number", JInt (Dec.dint d * Dec.pow10 (Dec.dexp d))); ("prefix", JInt q)])
   else None.
+
+(* ---------- parameter values that cannot be named ----------
+   A field that holds an object without a JSON form is never of a scalar dtype, so `_unique_name` takes the hashed form,
+   and `json.dumps(params, default=hdl21_naming_encoder)` reaches every field value, nested param-classes included; the
+   encoder hands the object to pydantic's encoder, which raises TypeError (an Instance: RuntimeError from the encoder
+   itself).  `_unique_name` RAISES - it does not fall back to repr(obj), which would put a memory address into the name. *)
+Fixpoint has_obj (v : pval) : bool :=
+  match v with
+  | VObj _ => true
+  | VRec vs => (fix go (vs : list pval) : bool := match vs with [] => false | x :: vs' => has_obj x || go vs' end) vs
+  | _ => false
+  end.
+
+Definition unique_name_f (fs : list field) (vs : list pval) : result uname :=
+  if existsb has_obj vs then Error EName else unique_name fs vs.
